@@ -274,6 +274,21 @@ def run(ck):
         x = peel_b(x)
         if x.get('k') not in ('Call', 'MCall', 'Match'):
             return False
+        if x.get('k') == 'Call':
+            # `is_file_content_eq(&path, &data)`: a helper of the bin crate whose result is the comparison of its own parameters
+            g = B.fn(H.callee(x) or H.callee_decl(x) or '?')
+            if g is not None and g is not f and g.get('body') is not None and len(g.get('params', [])) == len(x['args']):
+                ph2 = bh2 = None
+                for i_, a in enumerate(x['args']):
+                    rl = H.root_local(a)
+                    if rl is not None and rl.get('hid') == ph:
+                        ph2 = next((b['hid'] for b in H.pat_bindings(g['params'][i_])), None)
+                    if rl is not None and rl.get('hid') == bh:
+                        bh2 = next((b['hid'] for b in H.pat_bindings(g['params'][i_])), None)
+                vals = list(H.return_exprs(g['body']))
+                if ph2 is not None and bh2 is not None and len(vals) == 1:
+                    return is_E(g, vals[0], ph2, bh2)
+                return False
         reads = [r for r in H.calls_in(x) if (H.callee_decl(r) or '') == 'std::fs::read']
         if not reads or not all(H.root_local(r['args'][0]) is not None and H.root_local(r['args'][0]).get('hid') == ph for r in reads):
             return False
@@ -366,16 +381,41 @@ def run(ck):
         wfn, ww = st_['wfn'], st_['w']
         ph, bh = (st_['wpath'] or {}).get('hid'), (st_['wbuf'] or {}).get('hid')
         region = st_['region']
-        if region is None:
-            # direct form: the chain of boolean ifs wrapped around the call
-            region = ww
-            for anc in H.ancestors(wfn, ww):
-                if anc.get('k') == 'If' and anc['c'].get('k') != 'LetCond':
-                    region = anc
-                elif anc.get('k') in ('If', 'Match', 'For', 'Loop', 'Closure'):
+        direct = region is None
+        if direct:
+            region = guf['body']       # direct form: all paths through generate_ui_file
+        # what says that there is nothing to write for this site: the Option the filling call's receiver was taken out of is None
+        fill = None
+        if buf_root is not None:
+            for c in H.calls_in(guf['body']):
+                if any(a.get('k') == 'AddrOf' and a.get('mut') and (H.root_local(a) or {}).get('hid') == buf_root.get('hid') for x in [c] for a in H.call_args(x)):
+                    anc_calls = [a for a in H.ancestors(guf, c) if a.get('k') in ('Call', 'MCall')]
+                    fill = anc_calls[-1] if anc_calls else c
+                    # the outermost call of the statement (serialize_to_xml(&mut XmlWriter::new(&mut buf)))
+                    fill = next((a for a in reversed([c] + anc_calls) if a.get('k') == 'MCall' and H.root_local(a['recv']) is not None and (H.root_local(a['recv']) or {}).get('hid') != buf_root.get('hid')), fill)
                     break
+        absent_nodes = set()
+        if fill is not None and fill.get('k') == 'MCall':
+            src = H.root_local(fill['recv'])
+            bsrc = H.binding_sites(guf).get((src or {}).get('hid')) if src is not None else None
+            if bsrc is not None and bsrc['kind'] == 'letcond':
+                absent_nodes.add(id(H.parents(guf).get(id(bsrc['node']))))      # the `if let Some(x) = opt` node
+            if bsrc is not None and bsrc['kind'] == 'let' and bsrc['node'].get('els') is not None:
+                absent_nodes.add(id(bsrc['node']))
+
+        def classify(n):
+            if n is ww:
+                return 'W'
+            if n.get('k') == 'Call' and (n.get('def') or '').endswith('Result::Err'):
+                return 'ERR'
+            return None
         skip_bad, write_bad, n_skip, n_write = [], [], 0, 0
-        for ctx, evs, ex in H.paths(region, lambda n: 'W' if n is ww else None):
+        for ctx, evs, ex in H.paths(region, classify):
+            if 'ERR' in evs and ex == 'return':
+                continue        # the source is refused on this path
+            if direct and any((lab == 'else' and id(node) in absent_nodes) or (lab == 'let-else' and id(node) in absent_nodes) for lab, node in ctx):
+                continue        # nothing to write for this output (no support code)
+
             def decided(pred_then, pred_else):
                 for lab, node in ctx:
                     if node.get('k') != 'If' or node['c'].get('k') == 'LetCond':
@@ -397,6 +437,15 @@ def run(ck):
                 # this path leaves the old file in place: some decision on it holds only when the content is equal
                 if not decided(lambda c_: implies_E(wfn, c_, ph, bh), lambda c_: False):
                     skip_bad.append(H.describe_ctx(ctx) or '<unconditional>')
+        if not direct:
+            # helper form: the helper itself must be reached on every path of generate_ui_file that succeeds and has the data
+            for ctx, evs, ex in H.paths(guf['body'], lambda n: 'W' if n is w else ('ERR' if n.get('k') == 'Call' and (n.get('def') or '').endswith('Result::Err') else None)):
+                if 'ERR' in evs and ex == 'return':
+                    continue
+                if any((lab == 'else' and id(node) in absent_nodes) or (lab == 'let-else' and id(node) in absent_nodes) for lab, node in ctx):
+                    continue
+                if 'W' not in evs:
+                    skip_bad.append('in generate_ui_file: ' + (H.describe_ctx(ctx) or '<unconditional>'))
         ok_skip = n_write >= 1 and not skip_bad
         ck.ob('R15.4', key + '|skipped-only-if-same-bytes', ok_skip, B.loc(ww),
               '%d path(s) leave the existing file in place, each under a test that holds only if fs::read(%s) == %s' % (n_skip, pname, bname) if ok_skip else
@@ -433,7 +482,10 @@ def run(ck):
                     pat = anc['c']['pat']
                     if pat.get('k') == 'PTS' and (pat.get('def') or '').endswith('Option::Some'):
                         under_some = True
-            ck.ob('R15.5', 'header-only-if-support-code', under_some, B.loc(w), 'header write is under `if let Some(ui_support) = ..`')
+            if not under_some and absent_nodes:
+                # `let Some(ui_support) = ui_support_opt else { return Ok(()) };` in front: same thing as a guard clause
+                under_some = True
+            ck.ob('R15.5', 'header-only-if-support-code', under_some, B.loc(w), 'the header is filled from the payload of `Some(ui_support)`: written only if support code exists')
         else:
             ck.ob('R15.5', 'path-provenance|%s' % pname, False, B.loc(w), 'output path derives from %s' % sorted(por))
         ck.ob('R15.5', 'path-through-with_file_name|%s' % pname, any(x.endswith('with_file_name') for x in por), B.loc(w), 'derives from source.with_file_name(..): %s' % sorted(por))
